@@ -34,8 +34,25 @@ def _dump(n):
 # ------------------------------------------------------------------ lab.py
 
 def sched_params():
-    out = dict(p_cmp='CmpUnknown', p_dep_guard='false', p_missing='MUnknownMode', p_final='FUnknownFinal')
+    out = dict(p_cmp='CmpUnknown', p_dep_guard='false', p_missing='MUnknownMode', p_final='FUnknownFinal', mark='MarkUnknown')
     lab = _src('lab.py')
+    # complete_task hands the result_meta to every instance, and the setter assigns it, unconditionally?
+    ct = _find(lab, 'TaskState', 'complete_task')
+    setter = [n for n in _src('tasks.py').body if isinstance(n, ast.FunctionDef) and n.name == '_task_set_result_meta']
+    if ct is not None and len(setter) == 1:
+        body = [n for n in setter[0].body if not (isinstance(n, ast.Expr) and isinstance(n.value, ast.Constant))]
+        plain_setter = len(body) == 1 and ast.unparse(body[0]) == "object.__setattr__(self, 'result_meta', result_meta)"
+        guarded_setter = any(isinstance(n, ast.If) and 'result_meta' in ast.unparse(n.test) for n in ast.walk(setter[0]))
+        loops = [n for n in ast.walk(ct) if isinstance(n, ast.For) and '_set_result_meta' in ast.unparse(n)]
+        if len(loops) == 1:
+            plain_loop = len(loops[0].body) == 1 and isinstance(loops[0].body[0], ast.Expr) and ast.unparse(loops[0].body[0]).endswith('._set_result_meta(result_meta)') \
+                and not isinstance(loops[0].iter, (ast.ListComp, ast.GeneratorExp))
+            guarded_loop = any(isinstance(n, (ast.If, ast.IfExp, ast.comprehension)) and 'result_meta' in ast.unparse(n) and 'None' in ast.unparse(n)
+                               for n in ast.walk(loops[0]))
+            if plain_setter and plain_loop:
+                out['mark'] = 'MarkAlways'
+            elif guarded_setter or guarded_loop:
+                out['mark'] = 'MarkIfUnset'
     gr = _find(lab, 'TaskState', 'get_ready_tasks')
     if gr is not None:
         for n in ast.walk(gr):
@@ -498,6 +515,7 @@ def with_probes():
     _settle(sp, 'p_dep_guard', 'false', probed)
     _settle(sp, 'p_missing', 'MUnknownMode', probed)
     _settle(sp, 'p_final', 'FUnknownFinal', probed)
+    _settle(sp, 'mark', 'MarkUnknown', probed)
     ep = exec_params()
     _settle(ep, 'start', 'StartUnknown', probed)
     _settle(ep, 'ctor', 'CtorUnknown', probed)
@@ -538,6 +556,7 @@ def render():
         'Definition sched_params : params :=',
         '  {| p_cmp := %(p_cmp)s; p_dep_guard := %(p_dep_guard)s; p_missing := %(p_missing)s; p_final := %(p_final)s |}.' % sp,
     ]
+    lines += ['Definition mark_mode_src : mark_mode := %(mark)s.' % sp]
     lines += ['Definition deser_mode_src : deser_mode := %(deser)s.' % vp,
               'Definition setstate_mode_src : setstate_mode := %(setstate)s.' % vp,
               'Definition key_mode_src : key_mode := %(keymode)s.' % vp,
